@@ -94,6 +94,10 @@ TRAJ = {t.name: t for t in [
     # the aircraft stays listed through a long stretch without positions (identification only) and then reports again
     Traj("north_600kt_position_outage", 10.0, 5.0, 0, 600, kinds=(0, 1, "alive"), gaps=(0.4, 4, 9.6)),
     Traj("landing_mixed_norecv", 52.30, 4.70, 240, 140, receiver=None, surface_from=12.0, taxi_kt=40, kinds=(0, 1, "vel", "id"), gaps=(0.4, 4, 9.6)),
+    # one address heard through its own DF17 squitters AND through DF18 rebroadcasts (ADS-R) of the same reports: whatever
+    # the table does to keep the two apart, the frames it pairs for a first fix must still be less than 10 s apart
+    Traj("north_600kt_DF17_and_DF18", 20.0, 5.0, 0, 600, kinds=(0, 1, "e18", "o18"), gaps=(0.4, 9.6, 10.4, 25)),
+    Traj("NL30_north_600kt_DF17_and_DF18", C.TRANS[30] - 0.02, 100.0, 0, 600, kinds=(0, 1, "e18", "o18"), gaps=(0.4, 9.6, 25)),
 ]}
 ICAO1 = 0x4840D6
 
@@ -103,6 +107,9 @@ def pos_msg(tr, t, oe):
         return F.es(F.me(19, [(6, 3, 1), (15, 10, 121), (26, 10, 101), (38, 9, 5)]), ICAO1, 5, 17)
     if oe == "id":
         return F.es(F.me(4, [(6, 3, 3)]) | 0x04D2C31CB1C3, ICAO1, 5, 17)
+    df_ = 17
+    if oe in ("e18", "o18"):
+        df_, oe = 18, (0 if oe == "e18" else 1)
     lat, lon = tr.pos(t)
     surface = tr.on_ground(t)
     e = C.encode(Fr(lat), Fr(lon), oe, surface)
@@ -110,7 +117,7 @@ def pos_msg(tr, t, oe):
         me = C.me_surface(7, 12, 1, 40, oe, e["yz"], e["xz"])
     else:
         me = C.me_airborne(11, 0xC38, oe, e["yz"], e["xz"])
-    return F.es(me, ICAO1, 5, 17)
+    return F.es(me, ICAO1, 5 if df_ == 17 else 6, df_)
 
 
 def feed_event(d, tr, now, oe, gap):
